@@ -246,9 +246,13 @@ def module_graphs():
     return graphs
 
 
+LAYOUTS = ("row", "transposed", "column", "scalar")  # tensor layouts cycled over the leaves of a module graph (contiguous, non-contiguous views, 0-d)
+
+
 def make_module(cfg):
     spec = _totuple2(cfg["graph"])
     symkeys = cfg.get("symkeys", False)
+    layout_shift = cfg.get("layout_shift", 0)
 
     def fn():
         import torch
@@ -260,7 +264,15 @@ def make_module(cfg):
         def mk(node, tensors, prefix):
             if node == "T":
                 n = next(cnt)
-                t = torch.tensor([[symx.var(f"{prefix}t{n}_0"), symx.var(f"{prefix}t{n}_1")]], dtype=torch.float32)
+                lay = LAYOUTS[(len(tensors) + layout_shift) % len(LAYOUTS)]
+                if lay == "row":
+                    t = torch.tensor([[symx.var(f"{prefix}t{n}_0"), symx.var(f"{prefix}t{n}_1")]], dtype=torch.float32)
+                elif lay == "transposed":  # non-contiguous view of a 2x2 matrix
+                    t = torch.tensor([[symx.var(f"{prefix}t{n}_0"), symx.var(f"{prefix}t{n}_1")], [symx.var(f"{prefix}t{n}_2"), symx.var(f"{prefix}t{n}_3")]], dtype=torch.float32).T
+                elif lay == "column":  # strided column slice of a fused 2x3 buffer
+                    t = torch.tensor([[symx.var(f"{prefix}t{n}_{j}") for j in range(3)], [symx.var(f"{prefix}t{n}_{j}") for j in range(3, 6)]], dtype=torch.float32)[:, 1:]
+                else:  # 0-d
+                    t = torch.tensor(symx.var(f"{prefix}t{n}_0"), dtype=torch.float32)
                 tensors.append(t)
                 return t
             kind, kids = node
@@ -328,6 +340,7 @@ def make_module(cfg):
         collect(dst)
         symx.prove("tensor objects are not replaced by load_state_dict", [id(t) for t in after] == ids_before and all(t.a is a for t, a in zip(after, arrs_before)), info)
         for ti, (td, ts) in enumerate(zip(dst_t, src_t)):
+            symx.prove(f"loaded tensor {ti} keeps its shape", tuple(td.shape) == tuple(ts.shape), info)
             for x, y in zip(td.a.reshape(-1), ts.a.reshape(-1)):
                 symx.prove_equal(f"loaded value tensor {ti}", x, y, info)
         return len(found)
@@ -344,7 +357,8 @@ def _totuple2(t):
 
 
 # ------------------------------------------------------------------------------------------ concrete adversarial keys (real json)
-ADVERSARIAL = ['a', 'a/b', 'b', '"', '\\', '[', ']', ',', ' ', '', '["a"]', '["a", "b"]', 'a", "b', '0', 'a.b', "'", '\n', 'é', '{"a":1}', 'null']
+ADVERSARIAL = ['a', 'a/b', 'b', '"', '\\', '[', ']', ',', ' ', '', '["a"]', '["a", "b"]', 'a", "b', '0', 'a.b', "'", '\n', 'é', '{"a":1}', 'null',
+               '\\n', '\\u0041', 'A', 'a\\', '\t', '\\"', '\x00', '\x7f', '\u2028', 'a\\b']
 
 
 def adversarial_real_json():
@@ -362,16 +376,30 @@ def adversarial_real_json():
             if k3 != k1 or isinstance(d[k1], dict):
                 d.setdefault("other", {})[k3] = t3
             n += 1
-            flat = cu.flatten(d)
-            nleaf = 3
-            if len(flat) != nleaf:
-                bad.append(("collision", repr(d)[:80]))
+            try:
+                flat = cu.flatten(d)
+                nleaf = 3
+                if len(flat) != nleaf:
+                    bad.append(("collision", repr(d)[:80]))
+                    continue
+                back = cu.unflatten(flat)
+                ok = (set(back.keys()) == set(d.keys()) and back[k1][k2] is t1 and back["zz9"] is t2 and back["other"][k3] is t3
+                      and type(list(back[k1].keys())[0]) is type(k2))
+            except Exception as e:  # a key the encoding cannot carry: the round trip fails by raising
+                bad.append((f"round trip raised {type(e).__name__}", repr(d)[:80]))
                 continue
-            back = cu.unflatten(flat)
-            ok = (set(back.keys()) == set(d.keys()) and back[k1][k2] is t1 and back["zz9"] is t2 and back["other"][k3] is t3
-                  and type(list(back[k1].keys())[0]) is type(k2))
             if not ok:
                 bad.append(("roundtrip", repr(d)[:80]))
+    # sibling keys: two distinct keys of one dict must come back as two entries holding their own leaves
+    for k1, k2 in itertools.combinations(keys, 2):
+        t1, t2 = T(), T()
+        n += 1
+        try:
+            back = cu.unflatten(cu.flatten({"p": {k1: t1, k2: t2}}))
+            if not (len(back["p"]) == 2 and back["p"][k1] is t1 and back["p"][k2] is t2):
+                bad.append(("sibling keys confused", repr((k1, k2))))
+        except Exception as e:
+            bad.append((f"sibling keys: round trip raised {type(e).__name__}", repr((k1, k2))))
     # pairs of distinct paths that a concatenating encoding would confuse
     for p, q in ((("a", "b/c"), ("a/b", "c")), (("a", "b"), ("a", "b", "")), ((1,), ("1",)), (("a,b",), ("a", "b")), (('a", "b',), ("a", "b"))):
         t1, t2 = T(), T()
@@ -418,7 +446,7 @@ def run(tier, seed, argv):
                        "sibling keys of one dict are distinct (they are dict keys)", "tree skeletons / object graphs enumerated up to the bound; tensor contents symbolic"]
     res = par.run_jobs(jobs, chunk=8)
     rep.absorb("flatten", res)
-    mjobs = [dict(id=f"m{i}", module="checks.c16", factory="make_module", cfg=dict(graph=g, symkeys=bool(i % 2))) for i, g in enumerate(module_graphs())]
+    mjobs = [dict(id=f"m{i}", module="checks.c16", factory="make_module", cfg=dict(graph=g, symkeys=bool(i % 2), layout_shift=i % len(LAYOUTS))) for i, g in enumerate(module_graphs())]
     if tier == "quick":
         mjobs = mjobs[:30]
     rep.absorb("module", par.run_jobs(mjobs, chunk=4))
@@ -496,7 +524,17 @@ def replay(record):
 
         def mk(node, tensors, base):
             if node == "T":
-                t = torch.tensor([[base + len(tensors), base + len(tensors) + 0.5]])
+                n = len(tensors)
+                lay = LAYOUTS[(n + cfg.get("layout_shift", 0)) % len(LAYOUTS)]
+                b0 = base + 10 * n
+                if lay == "row":
+                    t = torch.tensor([[b0, b0 + 0.5]])
+                elif lay == "transposed":
+                    t = torch.tensor([[b0, b0 + 1.0], [b0 + 2.0, b0 + 3.0]]).T
+                elif lay == "column":
+                    t = torch.tensor([[b0 + j for j in range(3)], [b0 + 3.0 + j for j in range(3)]])[:, 1:]
+                else:
+                    t = torch.tensor(b0)
                 tensors.append(t)
                 return t
             kind_, kids = node
